@@ -21,10 +21,10 @@ from . import common, model, drive, geom, rdk, iso
 from .common import Reporter, run_tlc
 from .model import IdMap, project, build, diff
 
-FAMS = {"quick": {"alltet": 1, "alllp": 1, "allsp": 1, "alltbp": 3, "alloct": 12, "star5": 40, "two": 1, "star4lp": 6, "octdonor": 1},
-        "thorough": {"alltet": 1, "alllp": 1, "allsp": 1, "alltbp": 1, "alloct": 1, "star5": 1, "two": 1, "star4lp": 1, "tbp": 1, "oct": 1, "octdonor": 1}}
+FAMS = {"quick": {"alltet": 1, "alllp": 1, "allsp": 1, "alltbp": 3, "alloct": 12, "star5": 40, "two": 1, "star4lp": 6, "octdonor": 1, "octoct": 1},
+        "thorough": {"alltet": 1, "alllp": 1, "allsp": 1, "alltbp": 1, "alloct": 1, "star5": 1, "two": 1, "star4lp": 1, "tbp": 1, "oct": 1, "octdonor": 1, "octoct": 1}}
 # members built several times with different insertion orders (an export that re-orders bonds depends on it)
-REPEAT = {"octdonor": 6, "two": 2}
+REPEAT = {"octdonor": 6, "octoct": 4, "two": 2}
 
 
 def members(fam):
@@ -58,13 +58,13 @@ def run(tier):
         gs, res = members(fam)
         states += res.distinct
         gen += res.generated
-        fam_ids = rnd.sample(range(1, 900), 9)         # atom-map numbers must be positive and < 1000
+        fam_ids = rnd.sample(range(1, 900), 12)        # atom-map numbers must be positive and < 1000
         for gj in [x for x in gs[::step] for _ in range(REPEAT.get(fam, 1))]:
             n_graphs += 1
             # the members of one family share their identifiers (equal descriptors in other spellings are
             # exported one after the other in one process), every fourth member gets fresh ones
-            ids = fam_ids if n_graphs % 4 else rnd.sample(range(1, 900), 9)
-            idm = IdMap({k + 1: ids[k] for k in range(9)})
+            ids = fam_ids if n_graphs % 4 else rnd.sample(range(1, 900), 12)
+            idm = IdMap({k + 1: ids[k] for k in range(12)})
             g = iso.shuffled_build(gj, idm, rnd)
             before, _ = project(g, idm)
             det = {"family": fam, "g": gj, "idmap": idm.fwd}
